@@ -43,6 +43,8 @@ def gen(rng, tier, k=None):
     comp = int(rng.random() < 0.7)
     dirmode = rng.random() < 0.4 and not (many and k is not None and k % 12 == 2)
     hist = [['train', 1]] * pre + [['save'], ['load', 0, comp]] + [['train', 1]] * post
+    if rng.random() < 0.35:
+        hist = [['sd_nofactors', [0]]] + hist          # a query without factors on rank 0 only, before anything else
     base = [['train', 1]] * (pre + post)
     return cfg, hist, base, pre, comp, dirmode
 
@@ -89,7 +91,8 @@ def rollback_case(rng, tier, seed, k):
     degree 1 (for M > 1 the fresh object lacks the replicated factors: D7)."""
     import torch
     from harness import neoxrun
-    D = rng.choice([1, 2, 4])
+    dirmode = (k // 5) % 2 == 1            # every second roll-back case uses a checkpoint directory, with several data-parallel ranks
+    D = rng.choice([2, 4]) if dirmode else rng.choice([1, 2, 4])
     layers = []
     for _ in range(rng.randint(1, 3)):
         kind = rng.choice(['col', 'row'])
@@ -99,7 +102,6 @@ def rollback_case(rng, tier, seed, k):
            'damping': 0.5, 'factor_decay': rng.choice([0.5, 0.75]), 'lr': 1.0, 'kl_clip': None, 'allreduce_bucket_cap_mb': rng.choice([0.0, 25.0]),
            'factor_update_steps': 1, 'inv_update_steps': ius, 'accumulation_steps': 1}
     pre = rng.choice([s for s in range(1, 2 * ius) if s % ius != 0])
-    dirmode = rng.random() < 0.4
     extra, post = rng.randint(1, 3), rng.randint(1, 2)
     tmp = None
     if dirmode:
@@ -253,7 +255,8 @@ def run(tier, seed, rng):
             if not w.ok or not wb.ok:
                 probs.append(f'run failed: {w.errors[:1]} {w.deadlock} {dict(list(w.exceptions.items())[:2])}'[:400])
             else:
-                isave, iload = pre, pre + 1
+                off = 1 if hist[0][0] == 'sd_nofactors' else 0
+                isave, iload = pre + off, pre + 1 + off
                 held = [w.results[r][isave]['extra'] for r in range(W)]
                 nl = len(cfg['layers'])
                 names = [str(i) for i in range(nl)]          # DeepSpeed names pipeline layers by their global index
